@@ -70,31 +70,36 @@ theorem checkChain_spec (s : HistStore) :
       | some x => .error x := by
   rw [checkChain_eq, chainFold_spec]
 
-/-! ## `loadOne` -/
+/-! ## `checkStore`, `loadOne` -/
 
 /-- what is wrong with a store (independent of where it is and of its children) -/
 def storeFault : Option HistStore → Option Err
   | none => none
   | some s => if !s.chainPresent then some errNoChain else s.chain.findSome? (entryFault s)
 
-theorem loadOne_spec (here : RelPath) (store : Option HistStore) (kids : List Hist) :
-    loadOne here store kids =
-      match storeFault store with
+theorem checkStore_spec (store : Option HistStore) :
+    checkStore store = match storeFault store with
       | some x => .error x
-      | none =>
-        match store with
-        | none => .ok (.mk here [] [] false kids)
-        | some s => .ok (.mk here (loadGens s) s.chain true kids) := by
+      | none => .ok () := by
   cases store with
   | none => rfl
   | some s =>
-    unfold loadOne storeFault
+    unfold checkStore storeFault
     cases hc : s.chainPresent with
     | false => simp [hc]; rfl
     | true =>
       simp only [hc, Bool.not_true, Bool.false_eq_true, if_false]
       rw [checkChain_spec]
       cases s.chain.findSome? (entryFault s) <;> rfl
+
+theorem loadOne_spec (here : RelPath) (store : Option HistStore) (kids : List Hist) :
+    loadOne here store kids =
+      match storeFault store with
+      | some x => .error x
+      | none => .ok (buildHist here store kids) := by
+  unfold loadOne
+  rw [checkStore_spec]
+  cases storeFault store <;> rfl
 
 /-- the error of an `Except` -/
 def exceptErr {ε α : Type} : Except ε α → Option ε
@@ -110,30 +115,95 @@ theorem exceptErr_eq_some {ε α : Type} (x : Except ε α) (e : ε) : exceptErr
 theorem exceptErr_eq_none {ε α : Type} (x : Except ε α) : exceptErr x = none ↔ ∃ a, x = .ok a := by
   cases x <;> simp [exceptErr]
 
+theorem checkStore_err (store : Option HistStore) : exceptErr (checkStore store) = storeFault store := by
+  rw [checkStore_spec]; cases storeFault store <;> rfl
+
 theorem loadOne_err (here : RelPath) (store : Option HistStore) (kids : List Hist) :
     exceptErr (loadOne here store kids) = storeFault store := by
-  rw [loadOne_spec]
-  cases h : storeFault store with
-  | some x => rfl
-  | none => cases store <;> rfl
+  rw [loadOne_spec]; cases storeFault store <;> rfl
 
 theorem head?_append_of_ne_nil' {α : Type} (l₁ l₂ : List α) (h : l₁ ≠ []) : (l₁ ++ l₂).head? = l₁.head? := by
   cases l₁ with
   | nil => exact absurd rfl h
   | cons a as => rfl
 
-/-! ## nested histories: all faults in evaluation order -/
+theorem exceptErr_map {ε α β : Type} (f : α → β) (x : Except ε α) : exceptErr (x.map f) = exceptErr x := by
+  cases x <;> rfl
+
+/-- `mapM` over `Except`: the first error in list order -/
+theorem exceptErr_mapM {ε α β : Type} (f : α → Except ε β) (l : List α) :
+    exceptErr (l.mapM f) = l.findSome? (fun x => exceptErr (f x)) := by
+  induction l with
+  | nil => rfl
+  | cons a as ih =>
+    rw [List.mapM_cons, List.findSome?_cons]
+    cases hf : f a with
+    | error e => rfl
+    | ok b =>
+      simp only [exceptErr_ok, bind, Except.bind]
+      cases hm : as.mapM f with
+      | error e => rw [hm] at ih; exact ih
+      | ok bs => rw [hm] at ih; exact ih
+
+theorem head?_flatMap {α β : Type} (f : α → List β) (l : List α) :
+    (l.flatMap f).head? = l.findSome? (fun x => (f x).head?) := by
+  induction l with
+  | nil => rfl
+  | cons a as ih =>
+    rw [List.flatMap_cons, List.findSome?_cons]
+    cases hfa : f a with
+    | nil => simpa using ih
+    | cons b bs => rfl
+
+theorem insertSorted_map {α β : Type} (le₁ : α → α → Bool) (le₂ : β → β → Bool) (f : α → β)
+    (h : ∀ a b, le₂ (f a) (f b) = le₁ a b) (a : α) (l : List α) :
+    insertSorted le₂ (f a) (l.map f) = (insertSorted le₁ a l).map f := by
+  induction l with
+  | nil => rfl
+  | cons x xs ih =>
+    simp only [List.map_cons, insertSorted, h]
+    split
+    · rfl
+    · simp [ih]
+
+theorem isort_map {α β : Type} (le₁ : α → α → Bool) (le₂ : β → β → Bool) (f : α → β)
+    (h : ∀ a b, le₂ (f a) (f b) = le₁ a b) (l : List α) :
+    isort le₂ (l.map f) = (isort le₁ l).map f := by
+  induction l with
+  | nil => rfl
+  | cons x xs ih => simp only [List.map_cons, isort, ih, insertSorted_map le₁ le₂ f h]
+
+/-! ## nested histories: all faults in walk order -/
+
+/-- the order of the per-child results: by name -/
+abbrev keyLe {β : Type} (a b : String × β) : Bool := strLe a.1 b.1
 
 mutual
-/-- the faults of the histories strictly below a node, in the order `findChildren` meets them: children in stored
-order, for each child first what is below it, then its own store -/
+/-- the faults of the histories strictly below a node, in the order `findChildren` reports them (= the walk order of
+the tool): children in NAME order (stable for equal names), for each child first its own store, then what is
+below it -/
 def nestedFaults : Node → List Err
   | .file _ _ => []
-  | .dir _ cs _ => nestedFaultsList cs
-def nestedFaultsList : List Node → List Err
+  | .dir _ cs _ => (isort keyLe (nestedFaultsList cs)).flatMap (·.2)
+/-- per child (stored order): its name and its faults -/
+def nestedFaultsList : List Node → List (String × List Err)
   | [] => []
-  | c :: cs => (nestedFaults c ++ (storeFault c.hist).toList) ++ nestedFaultsList cs
+  | c :: cs => (c.name, (storeFault c.hist).toList ++ nestedFaults c) :: nestedFaultsList cs
 end
+
+theorem findSome?_sorted_eq {α β : Type} (l₁ : List (String × α)) (l₂ : List (String × β))
+    (g₁ : α → Option Err) (g₂ : β → Option Err)
+    (h : l₁.map (fun x => (x.1, g₁ x.2)) = l₂.map (fun x => (x.1, g₂ x.2))) :
+    (isort keyLe l₁).findSome? (fun x => g₁ x.2) = (isort keyLe l₂).findSome? (fun x => g₂ x.2) := by
+  have e1 : (isort keyLe l₁).findSome? (fun x => g₁ x.2) =
+      ((isort keyLe l₁).map (fun x => (x.1, g₁ x.2))).findSome? (fun x : String × Option Err => x.2) := by
+    rw [List.findSome?_map]; rfl
+  have e2 : (isort keyLe l₂).findSome? (fun x => g₂ x.2) =
+      ((isort keyLe l₂).map (fun x => (x.1, g₂ x.2))).findSome? (fun x : String × Option Err => x.2) := by
+    rw [List.findSome?_map]; rfl
+  have m1 := isort_map keyLe keyLe (fun x : String × α => (x.1, g₁ x.2)) (fun _ _ => rfl) l₁
+  have m2 := isort_map keyLe keyLe (fun x : String × β => (x.1, g₂ x.2)) (fun _ _ => rfl) l₂
+  rw [e1, e2, ← m1, ← m2, h]
 
 mutual
 theorem findChildren_err (here : RelPath) : (t : Node) →
@@ -142,81 +212,47 @@ theorem findChildren_err (here : RelPath) : (t : Node) →
   | .dir _ cs _ => by
     have ih := findChildrenList_err here cs
     unfold findChildren nestedFaults
-    cases h : findChildrenList here cs with
-    | error e => rw [h] at ih; simpa [bind, Except.bind] using ih
-    | ok v => rw [h] at ih; simpa [bind, Except.bind, pure, Except.pure] using ih
+    simp only
+    rw [exceptErr_map, exceptErr_mapM, head?_flatMap]
+    exact findSome?_sorted_eq _ _ exceptErr List.head? ih
 theorem findChildrenList_err (here : RelPath) : (cs : List Node) →
-    exceptErr (findChildrenList here cs) = (nestedFaultsList cs).head?
-  | [] => by simp [findChildrenList, nestedFaultsList, pure, Except.pure]
+    (findChildrenList here cs).map (fun x => (x.1, exceptErr x.2)) =
+      (nestedFaultsList cs).map (fun x => (x.1, x.2.head?))
+  | [] => by simp [findChildrenList, nestedFaultsList]
   | c :: cs => by
     have ihr := findChildrenList_err here cs
+    have ihc := findChildren_err (here ++ [c.name]) c
     unfold findChildrenList nestedFaultsList
-    cases c with
-    | file n b =>
-      simp only [nestedFaults, Node.hist, storeFault, Option.toList, List.append_nil, List.nil_append]
-      cases h : findChildrenList here cs with
-      | error e => rw [h] at ihr; simpa [bind, Except.bind, pure, Except.pure] using ihr
-      | ok v => rw [h] at ihr; simpa [bind, Except.bind, pure, Except.pure] using ihr
-    | dir n ds hh =>
-      have ihc := findChildren_err (here ++ [n]) (.dir n ds hh)
-      cases hh with
-      | none =>
-        simp only [Node.hist, storeFault, Option.toList, List.append_nil]
-        cases hc : findChildren (here ++ [n]) (.dir n ds none) with
-        | error e =>
-          rw [hc] at ihc
-          have : nestedFaults (.dir n ds none) ≠ [] := by
-            intro h0; rw [h0] at ihc; simp at ihc
-          simp only [bind, Except.bind, exceptErr_error]
-          rw [head?_append_of_ne_nil' _ _ this]
-          exact ihc
-        | ok v =>
-          rw [hc] at ihc
-          have : nestedFaults (.dir n ds none) = [] := by
-            simpa using ihc.symm
-          rw [this]
-          cases h : findChildrenList here cs with
-          | error e => rw [h] at ihr; simpa [bind, Except.bind, pure, Except.pure] using ihr
-          | ok v => rw [h] at ihr; simpa [bind, Except.bind, pure, Except.pure] using ihr
-      | some s =>
-        simp only [Node.hist]
-        cases hc : findChildren (here ++ [n]) (.dir n ds (some s)) with
-        | error e =>
-          rw [hc] at ihc
-          have : nestedFaults (.dir n ds (some s)) ≠ [] := by
-            intro h0; rw [h0] at ihc; simp at ihc
-          simp only [bind, Except.bind, exceptErr_error]
-          rw [List.append_assoc, head?_append_of_ne_nil' _ _ this]
-          exact ihc
-        | ok v =>
-          rw [hc] at ihc
-          have h0 : nestedFaults (.dir n ds (some s)) = [] := by
-            simpa using ihc.symm
-          rw [h0]
-          simp only [bind, Except.bind]
-          have hl := loadOne_err (here ++ [n]) (some s) v
-          cases hl1 : loadOne (here ++ [n]) (some s) v with
-          | error e =>
-            rw [hl1] at hl
-            simp only [exceptErr_error] at hl
-            simp [← hl]
-          | ok hst =>
-            rw [hl1] at hl
-            simp only [exceptErr_ok] at hl
-            rw [← hl]
-            cases h : findChildrenList here cs with
-            | error e => rw [h] at ihr; simpa [bind, Except.bind, pure, Except.pure] using ihr
-            | ok v => rw [h] at ihr; simpa [bind, Except.bind, pure, Except.pure] using ihr
+    simp only [List.map_cons, ihr, List.cons.injEq, Prod.mk.injEq, true_and, and_true]
+    cases hh : c.hist with
+    | none => simpa [storeFault] using ihc
+    | some s =>
+      simp only
+      have hcs := checkStore_err (some s)
+      cases hc : checkStore (some s) with
+      | error e =>
+        rw [hc] at hcs
+        simp only [exceptErr_error] at hcs
+        simp [bind, Except.bind, ← hcs]
+      | ok u =>
+        rw [hc] at hcs
+        simp only [exceptErr_ok] at hcs
+        rw [← hcs]
+        simp only [bind, Except.bind, Option.toList, List.nil_append]
+        cases hk : findChildren (here ++ [c.name]) c with
+        | error e => rw [hk] at ihc; simpa using ihc
+        | ok v => rw [hk] at ihc; simpa [pure, Except.pure] using ihc
 end
 
-/-- all faults of a tree in the order `loadHistory` meets them: the root's own store first -/
+/-- all faults of a tree in the order `loadHistory` reports them: the root's own store first, then the nested
+histories in walk order -/
 def allFaults (t : Node) : List Err := (storeFault t.hist).toList ++ nestedFaults t
 
 theorem loadHistory_err (t : Node) : exceptErr (loadHistory t) = (allFaults t).head? := by
   unfold loadHistory allFaults
-  have h1 := loadOne_err [] t.hist []
+  have h1 := checkStore_err t.hist
   have h2 := findChildren_err [] t
-  cases hl : loadOne [] t.hist [] with
+  cases hl : checkStore t.hist with
   | error e =>
     rw [hl] at h1; simp only [exceptErr_error] at h1
     simp [bind, Except.bind, ← h1]
@@ -226,6 +262,33 @@ theorem loadHistory_err (t : Node) : exceptErr (loadHistory t) = (allFaults t).h
     cases hc : findChildren [] t with
     | error e => rw [hc] at h2; simpa [bind, Except.bind] using h2
     | ok v => rw [hc] at h2; simpa [bind, Except.bind, pure, Except.pure] using h2
+
+/-- on success the loaded root history is `buildHist` of the root store with the children found -/
+theorem loadHistory_ok_eq (t : Node) (h : Hist) (hl : loadHistory t = .ok h) :
+    ∃ kids, findChildren [] t = .ok kids ∧ h = buildHist [] t.hist kids := by
+  unfold loadHistory at hl
+  cases hc : checkStore t.hist with
+  | error e => simp [hc, bind, Except.bind] at hl
+  | ok u =>
+    cases hk : findChildren [] t with
+    | error e => simp [hc, hk, bind, Except.bind] at hl
+    | ok v =>
+      simp [hc, hk, bind, Except.bind, pure, Except.pure] at hl
+      exact ⟨v, rfl, hl.symm⟩
+
+theorem nestedFaultsList_eq_map (cs : List Node) :
+    nestedFaultsList cs = cs.map fun c => (c.name, (storeFault c.hist).toList ++ nestedFaults c) := by
+  induction cs with
+  | nil => rfl
+  | cons c cs ih => simp [nestedFaultsList, ih]
+
+theorem nestedFaultsList_append (l₁ l₂ : List Node) :
+    nestedFaultsList (l₁ ++ l₂) = nestedFaultsList l₁ ++ nestedFaultsList l₂ := by
+  simp [nestedFaultsList_eq_map]
+
+theorem keyLe_total {β : Type} (a b : String × β) : keyLe a b = true ∨ keyLe b a = true := strLe_total _ _
+theorem keyLe_trans {β : Type} (a b c : String × β) (h₁ : keyLe a b = true) (h₂ : keyLe b c = true) :
+    keyLe a c = true := strLe_trans _ _ _ h₁ h₂
 
 /-! ## trees without nested histories -/
 
@@ -239,32 +302,103 @@ def noHistList : List Node → Bool
   | c :: cs => noHist c && noHistList cs
 end
 
+theorem flatMap_isort_nil {β : Type} (l : List (String × List β)) (h : ∀ x ∈ l, x.2 = []) :
+    (isort keyLe l).flatMap (·.2) = [] := by
+  rw [List.flatMap_eq_nil_iff]
+  intro x hx
+  exact h x ((mem_isort_d _ _ _).1 hx)
+
 mutual
 theorem nestedFaults_noHist : (t : Node) → noHist t = true → nestedFaults t = [] ∧ storeFault t.hist = none
   | .file _ _, _ => by simp [nestedFaults, Node.hist, storeFault]
   | .dir _ cs h, hn => by
     simp only [noHist, Bool.and_eq_true, Option.isNone_iff_eq_none] at hn
     obtain ⟨rfl, hcs⟩ := hn
-    exact ⟨by simpa [nestedFaults] using nestedFaultsList_noHist cs hcs, rfl⟩
-theorem nestedFaultsList_noHist : (cs : List Node) → noHistList cs = true → nestedFaultsList cs = []
+    refine ⟨?_, rfl⟩
+    rw [nestedFaults]
+    exact flatMap_isort_nil _ (nestedFaultsList_noHist cs hcs)
+theorem nestedFaultsList_noHist : (cs : List Node) → noHistList cs = true →
+    ∀ x ∈ nestedFaultsList cs, x.2 = []
   | [], _ => by simp [nestedFaultsList]
   | c :: cs, hn => by
     simp only [noHistList, Bool.and_eq_true] at hn
     have h1 := nestedFaults_noHist c hn.1
     have h2 := nestedFaultsList_noHist cs hn.2
-    simp [nestedFaultsList, h1.1, h1.2, h2]
+    intro x hx
+    rw [nestedFaultsList, List.mem_cons] at hx
+    rcases hx with rfl | hx
+    · simp [h1.1, h1.2]
+    · exact h2 x hx
 end
-
-theorem nestedFaultsList_append (l₁ l₂ : List Node) :
-    nestedFaultsList (l₁ ++ l₂) = nestedFaultsList l₁ ++ nestedFaultsList l₂ := by
-  induction l₁ with
-  | nil => simp [nestedFaultsList]
-  | cons c cs ih => simp [nestedFaultsList, ih]
 
 theorem noHistList_iff (cs : List Node) : noHistList cs = true ↔ ∀ c ∈ cs, noHist c = true := by
   induction cs with
   | nil => simp [noHistList]
   | cons c cs ih => simp [noHistList, ih]
+
+/-- a single faulty child among fault-free siblings: its faults are those of the folder, wherever it is listed -/
+theorem flatMap_isort_single {β : Type} (pre post : List (String × List β)) (p : String × List β)
+    (hpre : ∀ x ∈ pre, x.2 = []) (hpost : ∀ x ∈ post, x.2 = []) :
+    (isort keyLe (pre ++ p :: post)).flatMap (·.2) = p.2 := by
+  classical
+  generalize hL : isort keyLe (pre ++ p :: post) = L
+  have hperm : L.Perm (pre ++ p :: post) := hL ▸ isort_perm_d _ _
+  have hothers : ∀ x ∈ pre ++ post, x.2 = [] := by
+    intro x hx
+    rcases List.mem_append.1 hx with h | h
+    · exact hpre x h
+    · exact hpost x h
+  have hperm' : L.Perm (p :: (pre ++ post)) := hperm.trans List.perm_middle
+  generalize pre ++ post = R at hothers hperm'
+  clear hL hperm
+  induction L generalizing R with
+  | nil => exact absurd hperm'.length_eq (by simp)
+  | cons x xs ih =>
+    have hx : x ∈ p :: R := hperm'.subset List.mem_cons_self
+    rw [List.flatMap_cons]
+    by_cases hxp : x = p
+    · subst hxp
+      have : xs.Perm R := List.Perm.cons_inv hperm'
+      have hnil : xs.flatMap (·.2) = [] := by
+        rw [List.flatMap_eq_nil_iff]
+        intro y hy; exact hothers y (this.subset hy)
+      rw [hnil, List.append_nil]
+    · have hxR : x ∈ R := by
+        rcases List.mem_cons.1 hx with h | h
+        · exact absurd h hxp
+        · exact h
+      rw [hothers x hxR, List.nil_append]
+      have hp2 : xs.Perm (p :: R.erase x) := by
+        have h1 : (x :: xs).Perm (x :: p :: R.erase x) :=
+          hperm'.trans ((List.Perm.cons p (List.perm_cons_erase hxR)).trans (List.Perm.swap x p _))
+        exact List.Perm.cons_inv h1
+      exact ih (R.erase x) (fun y hy => hothers y (List.mem_of_mem_erase hy)) hp2
+
+/-- in a list sorted by name the first fault is that of `p` when every other element is fault free or has a strictly
+greater name -/
+theorem findSome?_sorted_first {α β : Type} (le : α → α → Bool) (g : α → Option β) (L : List α) (p : α)
+    (hs : L.Pairwise (fun a b => le a b = true)) (hp : p ∈ L) (hgp : g p ≠ none)
+    (hothers : ∀ q ∈ L, q = p ∨ g q = none ∨ le q p = false) : L.findSome? g = g p := by
+  induction L with
+  | nil => cases hp
+  | cons q qs ih =>
+    rw [List.findSome?_cons]
+    rw [List.pairwise_cons] at hs
+    cases hq : g q with
+    | none =>
+      have hne : q ≠ p := fun h => hgp (h ▸ hq)
+      have hp' : p ∈ qs := by
+        rcases List.mem_cons.1 hp with h | h
+        · exact absurd h.symm hne
+        · exact h
+      exact ih hs.2 hp' (fun r hr => hothers r (List.mem_cons_of_mem _ hr))
+    | some y =>
+      rcases hothers q List.mem_cons_self with h | h | h
+      · rw [← h, hq]
+      · rw [hq] at h; cases h
+      · rcases List.mem_cons.1 hp with h' | h'
+        · rw [h', hq]
+        · rw [hs.1 p h'] at h; cases h
 
 /-- every fault is one of the three chain errors -/
 theorem storeFault_kind (o : Option HistStore) (e : Err) (h : storeFault o = some e) :
@@ -292,19 +426,21 @@ theorem nestedFaults_kind : (t : Node) → ∀ e ∈ nestedFaults t,
   | .file _ _ => by simp [nestedFaults]
   | .dir _ cs _ => by
     intro e he
-    rw [nestedFaults] at he
-    exact nestedFaultsList_kind cs e he
-theorem nestedFaultsList_kind : (cs : List Node) → ∀ e ∈ nestedFaultsList cs,
+    rw [nestedFaults, List.mem_flatMap] at he
+    obtain ⟨x, hx, hex⟩ := he
+    exact nestedFaultsList_kind cs x ((mem_isort_d _ _ _).1 hx) e hex
+theorem nestedFaultsList_kind : (cs : List Node) → ∀ x ∈ nestedFaultsList cs, ∀ e ∈ x.2,
     e = errModified ∨ e = errMissingManifest ∨ e = errNoChain
   | [] => by simp [nestedFaultsList]
   | c :: cs => by
-    intro e he
-    rw [nestedFaultsList] at he
-    simp only [List.mem_append, Option.mem_toList] at he
-    rcases he with (h | h) | h
-    · exact nestedFaults_kind c e h
-    · exact storeFault_kind _ e h
-    · exact nestedFaultsList_kind cs e h
+    intro x hx e he
+    rw [nestedFaultsList, List.mem_cons] at hx
+    rcases hx with rfl | hx
+    · simp only [List.mem_append, Option.mem_toList] at he
+      rcases he with h | h
+      · exact storeFault_kind _ e h
+      · exact nestedFaults_kind c e h
+    · exact nestedFaultsList_kind cs x hx e he
 end
 
 theorem allFaults_kind (t : Node) : ∀ e ∈ allFaults t,
